@@ -242,35 +242,32 @@ Proof.
   apply keys_lt_aremove. apply keys_lt_aremove. exact Hk.
 Qed.
 
-Section Replay.
-  Variables (guard : drow -> list nat -> list nat -> bool) (n : nat) (D : dendrogram)
-            (sim : cstate -> env -> Prop) (f : Z -> env -> pres env).
-  Hypothesis step : forall t r st e, nth_error D t = Some r -> sim st e -> keys_lt (n + t) st ->
-    match cut_step guard (n + t) r st with
-    | Ok st' => exists e', f (Z.of_nat t) e = POk e' /\ sim st' e'
-    | Err er => f (Z.of_nat t) e = PErr (conv er)
-    end.
-
-  Lemma for_range_replay : forall rows t0 st e, skipn t0 D = rows -> sim st e -> keys_lt (n + t0) st ->
+Lemma for_range_replay (guard : drow -> list nat -> list nat -> bool) (n : nat) (D : dendrogram)
+      (sim : cstate -> env -> Prop) (f : Z -> env -> pres env)
+      (step : forall t r st e, nth_error D t = Some r -> sim st e -> keys_lt (n + t) st ->
+         match cut_step guard (n + t) r st with
+         | Ok st' => exists e', f (Z.of_nat t) e = POk e' /\ sim st' e'
+         | Err er => f (Z.of_nat t) e = PErr (conv er)
+         end) :
+  forall rows t0 st e, skipn t0 D = rows -> sim st e -> keys_lt (n + t0) st ->
     match replay guard (n + t0) rows st with
     | Ok st' => exists e', for_range f (Datatypes.length rows) (Z.of_nat t0) e = POk e' /\ sim st' e'
     | Err er => for_range f (Datatypes.length rows) (Z.of_nat t0) e = PErr (conv er)
     end.
-  Proof.
-    induction rows as [|r rest IH]; intros t0 st e Hs Hsim Hk.
-    - simpl. exists e. split; [reflexivity | exact Hsim].
-    - apply skipn_cons_nth in Hs. destruct Hs as [Hr Hrest].
-      cbn [replay Datatypes.length for_range].
-      pose proof (step t0 r st e Hr Hsim Hk) as S1.
-      destruct (cut_step guard (n + t0) r st) as [st1|er] eqn:E1.
-      + destruct S1 as [e1 [F1 Sim1]]. rewrite F1.
-        replace (Z.of_nat t0 + 1)%Z with (Z.of_nat (S t0)) by lia.
-        replace (S (n + t0)) with (n + S t0) by lia.
-        apply IH; [exact Hrest | exact Sim1 |].
-        replace (n + S t0) with (S (n + t0)) by lia. eapply cut_step_keys; eassumption.
-      + rewrite S1. reflexivity.
-  Qed.
-End Replay.
+Proof.
+  induction rows as [|r rest IH]; intros t0 st e Hs Hsim Hk.
+  - simpl. exists e. split; [reflexivity | exact Hsim].
+  - apply skipn_cons_nth in Hs. destruct Hs as [Hr Hrest].
+    cbn [replay Datatypes.length for_range].
+    pose proof (step t0 r st e Hr Hsim Hk) as S1.
+    destruct (cut_step guard (n + t0) r st) as [st1|er] eqn:E1.
+    + destruct S1 as [e1 [F1 Sim1]]. rewrite F1.
+      replace (Z.of_nat t0 + 1)%Z with (Z.of_nat (S t0)) by lia.
+      replace (S (n + t0)) with (n + S t0) by lia.
+      apply IH; [exact Hrest | exact Sim1 |].
+      replace (n + S t0) with (S (n + t0)) by lia. eapply cut_step_keys; eassumption.
+    + rewrite S1. reflexivity.
+Qed.
 
 Local Open Scope string_scope.
 
@@ -596,4 +593,92 @@ Proof.
       match goal with |- context [exec _ ?e2] =>
         assert (T' := T 2 None e2 ltac:(simok) ltac:(simok) ltac:(simok) ltac:(simok) ltac:(simok) H2) end.
       destruct (cut_of D 2 None); exact T'.
+Qed.
+
+(** * get_labels: the loop that builds the reduced dendrogram *)
+Definition sim_red (cindex csize : list (nat * nat)) (cur cur_new : nat) (out : dendrogram) (e : env) : Prop :=
+  e "cluster_index" = Some (embN cindex) /\ e "cluster_size" = Some (embN csize) /\
+  e "current_cluster" = Some (vnat cur) /\ e "current_cluster_new" = Some (vnat cur_new) /\
+  e "dendrogram_new" = Some (VList (map embNewRow out)).
+
+Lemma dset_vnat_fresh k v (st : list (nat * nat)) :
+  alookup k st = None -> dset (Z.of_nat k) (VInt (Z.of_nat v)) (embA vnat st) = embA vnat (st ++ [(k, v)]).
+Proof. apply (dset_emb_fresh vnat). Qed.
+
+Definition red_f : val -> env -> pres env :=
+  fun r e' => match r with
+              | VList vs => match bind_all ["i"; "j"; "height"; "_"] vs e' with
+                            | Some e'' => exec (loop_body src_reduce_loop) e''
+                            | None => PErr PValueError
+                            end
+              | _ => PErr PTypeError
+              end.
+
+Ltac ev3 := cbn [exec eval upd String.eqb Ascii.eqb Bool.eqb fnat vnat embC embL embN index_vals option_map negb].
+Ltac evr := repeat (progress ev3 || look || (progress (unfold vnat))
+                   || rewrite qtrunc_inject_Z || rewrite dget_emb || rewrite dremove_emb
+                   || rewrite add_nat' || rewrite cmp_ne_nat').
+
+Lemma reduce_loop_link : forall rows cindex csize cur cur_new out e,
+  sim_red cindex csize cur cur_new out e -> keys_lt cur cindex -> keys_lt cur_new csize ->
+  match reduce_loop rows cindex csize cur cur_new with
+  | Ok res => exists e', for_rows red_f (map embRow rows) e = POk e' /\
+                         e' "dendrogram_new" = Some (VList (map embNewRow (out ++ res)))
+  | Err er => for_rows red_f (map embRow rows) e = PErr (conv er)
+  end.
+Proof.
+  induction rows as [|r rest IH]; intros cindex csize cur cur_new out e (Hci & Hcs & Hcur & Hnew & Hout) Kci Kcs.
+  - simpl. exists e. split; [reflexivity|]. rewrite app_nil_r. exact Hout.
+  - cbn [reduce_loop map for_rows].
+    remember (red_f (embRow r) e) as F eqn:HF. revert HF.
+    unfold red_f at 1. unfold embRow at 1. cbn [bind_all].
+    let b := eval vm_compute in (loop_body src_reduce_loop) in change (loop_body src_reduce_loop) with b.
+    evr.
+    destruct (alookup (r_left r) cindex) as [i_new|] eqn:Ei; evr; [|intros ->; reflexivity].
+    destruct (alookup (r_right r) (aremove (r_left r) cindex)) as [j_new|] eqn:Ej; evr; [|intros ->; reflexivity].
+    destruct (Nat.eqb i_new j_new) eqn:Eij; evr.
+    + (* same cluster *)
+      rewrite dset_vnat_fresh by (apply keys_lt_fresh; do 2 apply keys_lt_aremove; exact Kci).
+      change 1%Z with (Z.of_nat 1). evr. rewrite Nat.add_1_r. intros ->. cbv iota beta.
+      match goal with |- context [for_rows red_f _ ?e2] =>
+        specialize (IH (aremove (r_right r) (aremove (r_left r) cindex) ++ [(cur, i_new)])%list csize (S cur) cur_new out e2) end.
+      apply IH.
+      * unfold sim_red. simok.
+      * apply keys_lt_app; [do 2 apply keys_lt_aremove; exact Kci | lia].
+      * exact Kcs.
+    + destruct (alookup i_new csize) as [si|] eqn:Esi; evr; [|intros ->; reflexivity].
+      destruct (alookup j_new (aremove i_new csize)) as [sj|] eqn:Esj; evr; [|intros ->; reflexivity].
+      rewrite !dset_vnat_fresh by (apply keys_lt_fresh; do 2 apply keys_lt_aremove; first [exact Kcs | exact Kci]).
+      evr. change 1%Z with (Z.of_nat 1). evr. rewrite !Nat.add_1_r. intros ->. cbv iota beta.
+      match goal with |- context [for_rows red_f _ ?e2] =>
+        specialize (IH (aremove (r_right r) (aremove (r_left r) cindex) ++ [(cur, cur_new)])%list
+                       (aremove j_new (aremove i_new csize) ++ [(cur_new, si + sj)])%list (S cur) (S cur_new)
+                       (out ++ [(i_new, j_new, r_height r, si + sj)])%list e2) end.
+      assert (H1 : forall A B C, (A -> B -> C -> True) -> True) by trivial. clear H1.
+      match type of IH with ?A -> ?B -> ?C -> _ =>
+        assert (HA : A); [| assert (HB : B); [| assert (HC : C); [| specialize (IH HA HB HC) ]]] end.
+      * unfold sim_red. simok. rewrite map_app. reflexivity.
+      * apply keys_lt_app; [do 2 apply keys_lt_aremove; exact Kci | lia].
+      * apply keys_lt_app; [do 2 apply keys_lt_aremove; exact Kcs | lia].
+      * destruct (reduce_loop rest _ _ (S cur) (S cur_new)) as [out0|er].
+        -- destruct IH as [e' [F1 F2]]. exists e'. split; [exact F1|].
+           rewrite F2. rewrite <- app_assoc. reflexivity.
+        -- exact IH.
+Qed.
+
+Theorem src_reduce_loop_is_model D cindex csize cur cur_new (e0 : env) :
+  e0 "dendrogram" = Some (embD D) -> e0 "cluster_index" = Some (embN cindex) ->
+  e0 "cluster_size" = Some (embN csize) -> e0 "current_cluster" = Some (vnat cur) ->
+  e0 "current_cluster_new" = Some (vnat cur_new) -> e0 "dendrogram_new" = Some (VList []) ->
+  keys_lt cur cindex -> keys_lt cur_new csize ->
+  match reduce_loop D cindex csize cur cur_new with
+  | Ok res => exists e', exec src_reduce_loop e0 = POk e' /\ e' "dendrogram_new" = Some (VList (map embNewRow res))
+  | Err er => exec src_reduce_loop e0 = PErr (conv er)
+  end.
+Proof.
+  intros Hd Hci Hcs Hcur Hnew Hout Kci Kcs.
+  assert (E : exec src_reduce_loop e0 = for_rows red_f (map embRow D) e0).
+  { unfold src_reduce_loop. cbn [exec eval]. rewrite Hd. reflexivity. }
+  rewrite E.
+  exact (reduce_loop_link D cindex csize cur cur_new [] e0 (conj Hci (conj Hcs (conj Hcur (conj Hnew Hout)))) Kci Kcs).
 Qed.
